@@ -17,3 +17,15 @@ func WriteFile(name string, data []byte, perm iofs.FileMode) error {
 	return simrt.S.FS.GoWriteFile(name, data)
 }
 func TempFile(dir, pattern string) (*simrt.File, error) { return simrt.S.FS.GoTempFile(dir, pattern) }
+
+func TempDir(dir, pattern string) (string, error) {
+	f, err := simrt.S.FS.GoTempFile(dir, pattern)
+	if err != nil {
+		return "", err
+	}
+	name := f.Name()
+	if err := simrt.S.FS.GoRemove(name); err != nil {
+		return "", err
+	}
+	return name, simrt.S.FS.GoMkdir(name)
+}
